@@ -93,19 +93,18 @@ def ctrl_on_disconnected(self: Obj("AxolotlControlLayer"), yowLayerEvent: Obj("Y
 def ctrl_onAuthed(self: Obj("AxolotlControlLayer"), yowLayerEvent: Obj("YowLayerEvent")):
     requires(self._manager is not None)
     modifies(self._unsent_prekeys)
-    # a passive login with unconfirmed keys offers exactly those keys again (one upload, then a reconnect is requested
-    # by its result continuation); otherwise nothing is uploaded and nothing is forgotten
+    # a passive login with unconfirmed keys offers them again: exactly one upload (flush_keys: one _sendIq whose result
+    # continuation marks them), the queue is emptied; otherwise nothing is uploaded and nothing is forgotten; nothing is
+    # marked as sent by logging in
     ensures(n_events("manager.set_prekeys_as_sent") == 0)
     ensures(implies(contains_key(yowLayerEvent.args, "passive") and truthy(map_get(yowLayerEvent.args, "passive")) and len(old(self._unsent_prekeys)) > 0,
-                    n_events("flush_keys") == 1 and len(self._unsent_prekeys) == 0
-                    and event_arg("flush_keys", 0, 1) == old(self._unsent_prekeys) and event_kwarg("flush_keys", 0, "reboot_connection") == True))
+                    n_events("_sendIq") == 1 and len(self._unsent_prekeys) == 0))
     ensures(implies(not (contains_key(yowLayerEvent.args, "passive") and truthy(map_get(yowLayerEvent.args, "passive")) and len(old(self._unsent_prekeys)) > 0),
-                    n_events("flush_keys") == 0 and self._unsent_prekeys == old(self._unsent_prekeys)))
+                    n_events("_sendIq") == 0 and self._unsent_prekeys == old(self._unsent_prekeys)))
     propagates("manager.load_latest_signed_prekey", ensures=self._unsent_prekeys == old(self._unsent_prekeys))
-    propagates("flush_keys", ensures=self._unsent_prekeys == old(self._unsent_prekeys))
+    propagates("*", ensures=self._unsent_prekeys == old(self._unsent_prekeys))
 
 
-opaque(CTRL, "AxolotlControlLayer.flush_keys", event="flush_keys", raises=True, readonly=True)
 
 
 @contract(CTRL, "AxolotlControlLayer.on_connected")
